@@ -99,17 +99,23 @@ class NarwhalsMaterializer(FormulaMaterializer):
         # rank will be reduced in the _encode_evaled_factor method.
         from formulaic.transforms import encode_contrasts
 
+        categories = None
+        if (
+            nw.dependencies.is_narwhals_series(values)
+            and values.dtype == nw.Categorical
+            and len(values)
+        ):
+            # Keep the declared categories (and their order): converting an
+            # Arrow dictionary column to pandas decodes it to plain strings.
+            # (Read before rows are dropped: an Arrow column without rows has
+            # no chunks to read the dictionary from.)
+            categories = values.cat.get_categories().to_list()
         if drop_rows:
             values = drop_nulls(values, indices=drop_rows)
         if nw.dependencies.is_narwhals_series(values):
             if values.dtype == nw.Categorical:
-                # Keep the declared categories (and their order): converting an
-                # Arrow dictionary column to pandas decodes it to plain strings.
                 values = pandas.Series(
-                    pandas.Categorical(
-                        values.to_list(),
-                        categories=values.cat.get_categories().to_list(),
-                    )
+                    pandas.Categorical(values.to_list(), categories=categories or [])
                 )
             else:
                 values = values.to_pandas()
